@@ -7,6 +7,7 @@ import ZstdVerif.Lemmas.BitsRT
 import ZstdVerif.Lemmas.FSERT
 import ZstdVerif.Lemmas.HufRT
 import ZstdVerif.Lemmas.ExecRT
+import ZstdVerif.Lemmas.LitRT
 namespace ZstdVerif.Props.C01
 open ZstdVerif
 
@@ -200,6 +201,70 @@ theorem huf_roundtrip (src : Bytes) (start n hmax : Nat) (st : Stats) (h : readS
     (lits : List Nat) (hl : ∀ s ∈ lits, ∃ hs : s < st.weights.size, 0 < st.weights[s]) :
     decodeFields (buildTable st) lits.length (encode1 (codesOf st.weights st.tableLog) lits) = (lits, { bits := [], over := false }) :=
   stream_roundtrip_readStats src start n hmax st h lits hl
+
+/-! ### literals section, at the level of bytes: what the literals writer emits, `Block.decodeLiterals` reads back -/
+
+open HufEnc Huf HufRT BitW HufBytes in
+/-- **huf_decode1_bytes**: one Huffman stream as BYTES - the codes of `lits` appended with the forward bit writer (HUF_compress1X_usingCTable),
+read by `Huf.decode1` (HUF_decompress1X1 on the backward reader): exactly `lits`, stream exactly exhausted, no tolerated-laxity verdict -/
+theorem huf_decode1_bytes (hsrc : Bytes) (hstart hn : Nat) (st : Stats)
+    (hst : readStats hsrc hstart hn = .ok st) (lits : List Nat) (h : ∀ s ∈ lits, ∃ hs : s < st.weights.size, 0 < st.weights[s])
+    (hlog : st.tableLog ≤ 56) (out : ByteArray) :
+    decode1 (buildTable st) (ofFields (encode1 (codesOf st.weights st.tableLog) lits)) 0
+      (ofFields (encode1 (codesOf st.weights st.tableLog) lits)).size lits.length out false = .ok (out ++ litBytes lits) :=
+  huf_decode1_bytes_readStats hsrc hstart hn st hst lits h hlog out
+
+open HufEnc Huf HufRT BitW HufBytes in
+/-- **huf_decode4_bytes**: the four-stream layout (6-byte jump table, segments of (n+3)/4 symbols, HUF_compress4X_usingCTable) read by `Huf.decode4` -/
+theorem huf_decode4_bytes {weights : Array Nat} {log : Nat} (ok : WeightsOK weights log) (hlog : log ≤ 56) (used : Nat)
+    (lits : List Nat) (h : ∀ s ∈ lits, ∃ hs : s < weights.size, 0 < weights[s]) (blob : ByteArray)
+    (hc : compress4 ofFields (codesOf weights log) lits = some blob) (out : ByteArray) :
+    decode4 (buildTable ⟨weights, log, used⟩) blob 0 blob.size lits.length out = .ok (out ++ litBytes lits) :=
+  HufBytes.huf_decode4_bytes ok hlog used lits h blob hc out
+
+open LitEnc Block LitRT in
+/-- **literals_roundtrip_raw**: a Raw literals section (ZSTD_noCompressLiterals, all three header formats) followed by any bytes -/
+theorem literals_roundtrip_raw (lits : ByteArray) (src : Bytes) (start srcSize : Nat) (ent : Entropy) (bsm dstCap : Nat)
+    (hsec : src.extract start (start + (rawLiterals lits).size) = rawLiterals lits)
+    (h20 : lits.size < 2 ^ 20) (hbsm : lits.size ≤ bsm) (hcap : lits.size ≤ dstCap)
+    (hsz : (rawLiterals lits).size ≤ srcSize) (hmin : Gen.MIN_CBLOCK_SIZE ≤ srcSize) :
+    decodeLiterals src start srcSize ent bsm dstCap
+      = .ok { lits := lits, used := (rawLiterals lits).size, ent := ent, mode := .raw, streams := 1 } :=
+  LitRT.literals_roundtrip_raw lits src start srcSize ent bsm dstCap hsec h20 hbsm hcap hsz hmin
+
+open LitEnc Block LitRT in
+/-- **literals_roundtrip_rle**: an RLE literals section (ZSTD_compressRleLiteralsBlock) -/
+theorem literals_roundtrip_rle (n : Nat) (b : UInt8) (src : Bytes) (start srcSize : Nat) (ent : Entropy) (bsm dstCap : Nat)
+    (hsec : src.extract start (start + (rleLiterals (rleBytes n b)).size) = rleLiterals (rleBytes n b))
+    (h20 : n < 2 ^ 20) (hbsm : n ≤ bsm) (hcap : n ≤ dstCap)
+    (hsz : (rleLiterals (rleBytes n b)).size ≤ srcSize) (hmin : Gen.MIN_CBLOCK_SIZE ≤ srcSize) :
+    decodeLiterals src start srcSize ent bsm dstCap
+      = .ok { lits := rleBytes n b, used := (rleLiterals (rleBytes n b)).size, ent := ent, mode := .rle, streams := 1 } :=
+  LitRT.literals_roundtrip_rle n b src start srcSize ent bsm dstCap hsec h20 hbsm hcap hsz hmin
+
+open LitEnc Block LitRT HufRT HufEnc Huf HufBytes in
+/-- **literals_roundtrip_compressed**: a Huffman-compressed literals section as ZSTD_compressLiterals lays it out (3/4/5-byte header, tree
+description in the direct 4-bit form of HUF_writeCTable, one or four streams) is read back by `Block.decodeLiterals` as exactly the
+literals, the section size, and the decoding table of those weights (`literals_roundtrip_compressed_of_stats` in Lemmas/LitRT covers any
+tree description that `Huf.readStats` reads back, the FSE-compressed form included) -/
+theorem literals_roundtrip_compressed (ws : List Nat) (last log : Nat) (ok : WeightsOK (ws.toArray.push last) log)
+    (hlast : 0 < last) (hlog : log ≤ 12) (hr1 : 2 ≤ (ws ++ [last]).count 1) (hws : 1 ≤ ws.length)
+    (single : Bool) (wh streams : ByteArray) (syms : List Nat) (hwh : directWeights ws = some wh)
+    (hstreams : hufStreams single (codesOf (ws.toArray.push last) log) syms = some streams)
+    (hsyms : ∀ s ∈ syms, ∃ hs : s < (ws.toArray.push last).size, 0 < (ws.toArray.push last)[s])
+    (src : Bytes) (start srcSize : Nat) (ent : Entropy) (bsm dstCap : Nat)
+    (hsec : src.extract start (start + (compressedLiterals single wh streams syms.length).size)
+      = compressedLiterals single wh streams syms.length)
+    (hsingle : single = true → syms.length < 1024)
+    (hc : wh.size + streams.size < syms.length) (hn : syms.length ≤ 2 ^ 17)
+    (hbsm : syms.length ≤ bsm) (hcap : syms.length ≤ dstCap)
+    (hsz : (compressedLiterals single wh streams syms.length).size ≤ srcSize) :
+    decodeLiterals src start srcSize ent bsm dstCap
+      = .ok { lits := litBytes syms, used := (compressedLiterals single wh streams syms.length).size,
+              ent := { ent with huf := some (buildTable ⟨ws.toArray.push last, log, wh.size⟩) }, mode := .compressed,
+              streams := if single then 1 else 4 } :=
+  LitRT.literals_roundtrip_compressed ws last log ok hlast hlog hr1 hws single wh streams syms hwh hstreams hsyms src start srcSize ent bsm dstCap
+    hsec hsingle hc hn hbsm hcap hsz
 
 /-! ### sequence execution: any valid parse regenerates its source -/
 
